@@ -727,6 +727,32 @@ func sameExpr(a, b ssa.Value, depth int) bool {
 	case *ssa.Convert:
 		y, ok := b.(*ssa.Convert)
 		return ok && types.Identical(x.Type(), y.Type()) && sameExpr(x.X, y.X, depth+1)
+	case *ssa.UnOp:
+		// s.off read twice inside one expression (s.payload[s.off : s.off+n]): same block, no store
+		// or call between the two loads
+		y, ok := b.(*ssa.UnOp)
+		if !ok || x.Op != token.MUL || y.Op != token.MUL || x.Block() != y.Block() || !sameBase(x, y) {
+			return false
+		}
+		i, j := -1, -1
+		for k, ins := range x.Block().Instrs {
+			if ins == ssa.Instruction(x) {
+				i = k
+			}
+			if ins == ssa.Instruction(y) {
+				j = k
+			}
+		}
+		if i > j {
+			i, j = j, i
+		}
+		for k := i + 1; k < j; k++ {
+			switch x.Block().Instrs[k].(type) {
+			case *ssa.Store, ssa.CallInstruction, *ssa.MapUpdate:
+				return false
+			}
+		}
+		return i >= 0
 	}
 	return false
 }
